@@ -396,3 +396,52 @@ Definition try_f64_ok (t : term) (code : N) : bool := N.eqb (fres_code (try_f64 
 Definition lex_ok (s : str) (i b d f x : bool) : bool :=
   Bool.eqb (xsd_integer_lex s) i && Bool.eqb (xsd_boolean_lex s) b && Bool.eqb (xsd_decimal_lex s) d
   && Bool.eqb (xsd_double_lex s) f && Bool.eqb (xsd_string_lex s) x.
+
+(* ---------- a native term copied to another representation ---------- *)
+(* What the harness observes of a copy (SimpleTerm, ArcTerm, GenericLiteral, a term of an in-memory
+   graph, the object read back from a serialisation ...) is its image in Common/Term.v and the rank
+   of its TermKind; a faithful copy is Term::eq to the native term and is a literal. *)
+Definition reps_ok (v : term) (kinds : list N) (images : list term) : bool :=
+  forallb (N.eqb (kind_rank (kind_of v))) kinds && forallb (term_eqb v) images.
+Definition int_reps_ok (k : N) (z : Z) (kinds : list N) (images : list term) : bool :=
+  reps_ok (native_term no_digits true (NInt (ity_of k) z)) kinds images.
+Definition bool_reps_ok (b : bool) (kinds : list N) (images : list term) : bool :=
+  reps_ok (native_term no_digits true (NBool b)) kinds images.
+Definition str_reps_ok (s : str) (kinds : list N) (images : list term) : bool :=
+  reps_ok (native_term no_digits true (NStr s)) kinds images.
+(* special doubles only (codes of f64_of_code) *)
+Definition f64_reps_ok (c : N) (kinds : list N) (images : list term) : bool :=
+  reps_ok (native_term no_digits true (NF64 (f64_of_code c))) kinds images.
+
+(* ---------- pretty Turtle / TriG: turtle/src/serializer/_pretty.rs, write_literal ---------- *)
+(* INTEGER  sign? digits+ *)
+Definition re_integer (s : str) : bool := digits1 (strip_sign s).
+(* DECIMAL  sign? digits{0,} dot digits+ *)
+Definition re_decimal (s : str) : bool :=
+  let (_, r) := span_digits (strip_sign s) in
+  match r with c :: f => (c =? 46) && digits1 f | [] => false end.
+(* DOUBLE   sign? ( digits+ ( dot digits{0,} )? | dot digits+ ) [eE] sign? digits+ *)
+Definition re_double (s : str) : bool :=
+  let (m, e) := split_exp (strip_sign s) in
+  mantissa_ok m && match e with Some x => digits1 (strip_sign x) | None => false end.
+(* BOOLEAN  true | false *)
+Definition re_boolean (s : str) : bool := str_eqb s s_true || str_eqb s s_false.
+(* the literal is written as a bare token (no quotes, no datatype) *)
+Definition written_bare (t : term) : bool :=
+  match lexical_form t with
+  | Some lex =>
+      let dt := datatype t in
+      (str_eqb dt xsd_integer && re_integer lex) || (str_eqb dt xsd_decimal && re_decimal lex)
+      || (str_eqb dt xsd_double && re_double lex) || (str_eqb dt xsd_boolean && re_boolean lex)
+  | None => false
+  end.
+(* what the Turtle grammar makes of a bare token (productions INTEGER, DECIMAL, DOUBLE,
+   BooleanLiteral of RDF 1.1 Turtle 6.5): the datatype is chosen by the shape of the token *)
+Definition read_bare (s : str) : option term :=
+  if re_integer s then Some (LitDt s xsd_integer)
+  else if re_decimal s then Some (LitDt s xsd_decimal)
+  else if re_double s then Some (LitDt s xsd_double)
+  else if re_boolean s then Some (LitDt s xsd_boolean)
+  else None.
+(* observed: the pretty serializer wrote the literal without quotes *)
+Definition bare_ok (t : term) (observed : bool) : bool := Bool.eqb (written_bare t) observed.
